@@ -3,6 +3,7 @@ import NmVerif.Containers.Core
 import NmVerif.Containers.Spec
 import NmVerif.Containers.Vector
 import NmVerif.Containers.StaticVector
+import NmVerif.Containers.Either
 /-
   Driver for C19: `hist kind=<vec|…> elem=<int|double> ops=<op>;<op>;…` runs the history on the MODEL and prints,
   after every operation, the client-visible state of slots 0 and 1 (spec part), the internal state
@@ -82,6 +83,62 @@ def vecIntern (v : Vec Int) : String := s!"{v.cap}:{fmtCells (v.cells.drop v.siz
 def svecIntern (c : Nat) (v : SVec Int) : String := s!"{c}:{fmtCells (v.cells.drop v.size)}"
 def arrIntern (c : Nat) (_ : SVec Int) : String := s!"{c}:"
 
+/-! either / maybe -/
+
+def parseEOp (s : String) : Option (EOp Int Int) :=
+  match s.splitOn ":" with
+  | ["mk", a] => do pure (.mk (← a.toNat?))
+  | ["mkL", a, v] => do pure (.mkL (← a.toNat?) (← v.toInt?))
+  | ["mkR", a, v] => do pure (.mkR (← a.toNat?) (← v.toInt?))
+  | ["copy", d, a] => do pure (.copy (← d.toNat?) (← a.toNat?))
+  | ["assign", d, a] => do pure (.assign (← d.toNat?) (← a.toNat?))
+  | ["setL", a, v] => do pure (.setL (← a.toNat?) (← v.toInt?))
+  | ["setR", a, v] => do pure (.setR (← a.toNat?) (← v.toInt?))
+  | ["writeL", a, v] => do pure (.writeL (← a.toNat?) (← v.toInt?))
+  | ["read", a] => do pure (.read (← a.toNat?))
+  | ["destroy", a] => do pure (.destroy (← a.toNat?))
+  | _ => none
+
+def parseEOps (s : String) : Option (List (EOp Int Int)) :=
+  if s == "[]" || s == "" then some [] else (s.splitOn ";").mapM parseEOp
+
+def fmtEith (isMaybe : Bool) (x : Eith Int Int) : String :=
+  if x.tagL then (if isMaybe then "J" else "L") ++ fmtCell x.left.val
+  else if isMaybe then "N" else "R" ++ fmtCell x.right
+
+def fmtEObjs (isMaybe : Bool) (w : EWorld Int Int) : String :=
+  "/".intercalate ((List.range nSlots).map fun k =>
+    match w.objs k with
+    | none => "-"
+    | some x => fmtEith isMaybe x)
+
+def ledBad (L : Ledger) : Nat :=
+  (L.events.filter (fun e => e == .uninitAssign || e == .overLive || e == .destroyDead)).length
+
+def EOp.valid (w : EWorld Int Int) : EOp Int Int → Bool
+  | .mk s | .mkL s _ | .mkR s _ => (w.objs s).isNone
+  | .copy d s => (w.objs d).isNone && (w.objs s).isSome
+  | .assign d s => (w.objs d).isSome && (w.objs s).isSome
+  | .setL s _ | .setR s _ | .read s | .destroy s => (w.objs s).isSome
+  | .writeL s _ => match w.objs s with | some x => x.tagL | none => false
+
+def etrace (cfg : ECfg Int Int) (ops : List (EOp Int Int)) : String :=
+  let rec go (w : EWorld Int Int) (ops : List (EOp Int Int)) (accS accI : List String) : EWorld Int Int × List String × List String :=
+    match ops with
+    | [] => (w, accS.reverse, accI.reverse)
+    | op :: rest =>
+      let valid := EOp.valid w op
+      let w' := estep cfg w op
+      let note := match op with
+        | .read s => (match w.objs s with | some x => " r=" ++ fmtEith cfg.isMaybe x | none => "")
+        | _ => ""
+      let s := fmtEObjs cfg.isMaybe w' ++ (if valid then note else "!")
+      go w' rest (s :: accS) (s!"live={(w'.led.ctors : Int) - w'.led.dtors},b={ledBad w'.led}" :: accI)
+  let (w, ss, is) := go EWorld.empty ops [] []
+  let wEnd := erun cfg w ((List.range nSlots).map EOp.destroy)
+  let L := wEnd.led
+  s!"ok {"|".intercalate ss} # {"|".intercalate is} # leak=0 live={(L.ctors : Int) - L.dtors} bad={ledBad L}"
+
 def handle : Handler := fun op a =>
   match op with
   | "hist" => orBad do
@@ -91,6 +148,15 @@ def handle : Handler := fun op a =>
       | "vec" => pure (trace (vecImpl Int) vecIntern ops)
       | "svec" => pure (trace (svecImpl 4 (0 : Int)) (svecIntern 4) ops)
       | "arr" => pure (trace (arrImpl 3 (0 : Int)) (arrIntern 3) ops)
+      | _ => none
+  | "ehist" => orBad do
+      let kind ← a.get? "kind"
+      let elem := (a.get? "elem").getD "int"
+      let ops ← (a.get? "ops").bind parseEOps
+      let nt := elem == "tracked"
+      match kind with
+      | "maybe" => pure (etrace { isMaybe := true, nt := nt, zeroL := 0, zeroR := 0 } ops)
+      | "either" => pure (etrace { isMaybe := false, nt := nt, zeroL := 0, zeroR := 0 } ops)
       | _ => none
   | _ => none
 
